@@ -14,6 +14,18 @@ CHECKS = {
          "Every archive of an own C01-style batch (~190 quick / ~6200 thorough) is parsed by vlib/src/agcref.rs, which shares no code with ragc, recovers all samples, and asserts the addressing rules the statement lists. A change applied consistently to ragc's writer and reader keeps C01 green and fails here.",
          "The independent decoder is my reading of the AGC v3 rules; there is no C++ AGC binary in the sandbox to validate it against.",
          "DESIGN.md §6 C02"),
+ "C03": ("exploration", "proptest name/descriptor tables through the codec (hook H1) differentially against an independent decoder; batch layer through an Archive file; end to end through ragc create and the listings",
+         "6*10^4 (quick) / 2*10^6 (thorough) catalogues whose consecutive names share / change fields (run markers around 100/200, empty fields, tabs, changing field counts) and whose in-group ids repeat, go back, return to 0 or jump; up to 129 samples in 1..59-sample codec batches and in real 50-sample archive batches; ~60 / 3000 created archives for the listing layer.",
+         "Group ids <= 100000, ids <= 10^6; names unique and NUL-free. The independent decoder defines the byte format.",
+         "DESIGN.md §6 C03"),
+ "C07": ("exploration", "proptest archives x enumerated / junction-centred (start,end) ranges; oracle = slice of the full extraction",
+         "~110 (quick) / 2000 (thorough) archives with many short segments; every (start,end) for contigs <= 90 bases, otherwise every start within +-(k+1) of segment junctions crossed with a family of ends, ~8*10^5 range queries per quick run.",
+         "Relative to full extraction (C01 relates that to the input).",
+         "DESIGN.md §6 C07"),
+ "C08": ("exploration", "model-based history testing: every operation sequence up to length 2 (and length 3 over a sub-alphabet) plus random longer ones per archive, oracle = same operation on a fresh handle; cloned handles on concurrent threads vs the same sequence alone",
+         "48 (quick) / 800 (thorough) archives x 1420 enumerated sequences + random sequences of length 4..12, a quarter of the archives with two metadata batches; half of the cases also run 2..8 cloned handles concurrently.",
+         "Errors are compared as 'is an error'. Thread interleavings of the cloned readers are whatever the OS schedules (the handles share no state by construction; a violation needs shared state, which any schedule exposes as a changed value).",
+         "DESIGN.md §6 C08"),
  "C09": ("exploration", "exhaustive small-alphabet pairs + proptest edit-script-derived (reference, target) pairs; round-trip oracle plus independent LZ-text decoder",
          "All pairs with |ref|,|target| <= 6 over {A,C,N} (1.2*10^6), all targets <= 5 over {A,C,G,T,N,30} against fixed references, N runs 1..8 at all offsets are enumerated; 6*10^5 (quick) / 6*10^6 (thorough) structured random pairs up to 2 kb / 40 kb exercise matches, back-extension, '!' rewriting, elided lengths, N runs, code 30.",
          "min match >= 5; the independent decoder defines the LZ-diff V2 text.",
